@@ -16,8 +16,16 @@ func (p *Parser) getToken() {
 		return
 	}
 
+	// a token that opens a line is not attached to the token that ended the
+	// previous line: `x = 1` followed by `[1, 2].each` is not `1[1, 2]`
+	isLineStart := p.token == '\n'
+
 	if p.Lexer.Advance() {
 		p.token = p.Lexer.Token()
+
+		if isLineStart {
+			p.Lexer.IsSpace = true
+		}
 
 		switch p.token {
 		case '\n':
